@@ -141,6 +141,10 @@ fn check_scn(scn: &Scn, rep: &mut RunReport) -> Result<Option<Fail>, String> {
                 reached = true;
             }
             rep.bump(&format!("reads_at_render.{:?}", r.policy), r.world.source.total_reads() - reads_before);
+            if o.is_budget() {
+                rep.bump("discarded_budget", 1);
+                return Ok(None);
+            }
             if let Outcome::Panic(m) = &o {
                 return Ok(Some((i, "I5-panic".into(), format!("call #{i} {} panicked under {:?}: {m}", call.show(), r.policy))));
             }
@@ -158,8 +162,19 @@ fn check_scn(scn: &Scn, rep: &mut RunReport) -> Result<Option<Fail>, String> {
             )));
         }
         if outs.iter().any(|o| o.is_err()) {
+            // "fail alike" is read as: the same error, as far as it can be observed (its Display
+            // text, which names the partial, the position and the available partials). All three
+            // stores produce it from the same source and language, so any difference means one policy
+            // knows something different about the partial set. Reported under its own class.
             let msgs: std::collections::BTreeSet<String> = outs.iter().filter_map(|o| if let Outcome::Err { msg, .. } = o { Some(msg.clone()) } else { None }).collect();
             rep.bump(if msgs.len() == 1 { "err_messages_identical" } else { "err_messages_differ" }, 1);
+            if msgs.len() != 1 {
+                return Ok(Some((
+                    i,
+                    "I2m-error-text-differs".into(),
+                    format!("call #{i} {} fails under all policies but not alike: eager {} | lazy {} | on-demand {}", call.show(), outs[0].show(), outs[1].show(), outs[2].show()),
+                )));
+            }
         }
         // I3: storage faults are visible exactly on the paths that use them
         if has_faults {
@@ -365,7 +380,7 @@ impl Engine for C19 {
     fn assumptions(&self) -> Vec<String> {
         vec![
             "source listing is truthful (names() lists exactly what try_get can return), as the property demands".into(),
-            "error *messages* are not compared across policies, only Ok/Err and bytes (the property says 'fail alike'); identical/different message counts are reported as probes".into(),
+            "'fail alike' is read as 'the same error as observable through its Display text' (class I2m, reported separately from Ok/Err or output divergence I2); the three stores build that text from the same source and language".into(),
             "whether a call reached a faulty partial is observed through the on-demand replica's source read counters".into(),
         ]
     }
